@@ -26,16 +26,17 @@ def random_mark_schema(rng):
         elif r < 0.6:
             spec["excludes"] = " ".join(rng.sample(names, rng.randint(1, min(3, n))))
         elif r < 0.7:
-            spec["excludes"] = "grp"
-        if rng.random() < 0.3:
-            spec["group"] = "grp"
+            spec["excludes"] = rng.choice(["grp", "grp", "g2", "grp g2"])
+        if rng.random() < 0.4:
+            spec["group"] = rng.choice(["grp", "grp", "g2", "grp g2", "g2 grp"])     # a mark may be in several groups
         if rng.random() < 0.4:
             spec["attrs"] = {"k": {"default": 0}}
         marks[nm] = spec
-    if not any(v.get("group") for v in marks.values()):
-        for v in marks.values():
-            if v.get("excludes") == "grp":
-                v["excludes"] = ""
+    groups = {g for v in marks.values() for g in (v.get("group") or "").split(" ") if g}
+    for v in marks.values():
+        ex = v.get("excludes")
+        if ex and ex not in ("_",) and not all(w in groups or w in marks for w in ex.split(" ")):
+            v["excludes"] = " ".join(w for w in ex.split(" ") if w in groups or w in marks)     # may become "" (excludes nothing)
     nodes = {"doc": {"content": "p+"}, "text": {"group": "inline"}}
     for i in range(rng.randint(1, 3)):
         r = rng.random()
@@ -44,10 +45,16 @@ def random_mark_schema(rng):
             spec["marks"] = "_"
         elif r < 0.5:
             spec["marks"] = ""
-        elif r < 0.85:
+        elif r < 0.75:
             spec["marks"] = " ".join(rng.sample(names, rng.randint(1, n)))
+        elif r < 0.9 and groups:
+            spec["marks"] = " ".join(rng.sample(sorted(groups), rng.randint(1, len(groups))) + ([rng.choice(names)] if rng.random() < 0.5 else []))
         nodes["p%d" % i if i else "p"] = spec
-    return SchemaInfo(Schema({"nodes": nodes, "marks": marks}), "marks-random")
+    spec = {"nodes": nodes, "marks": marks}
+    st, sc = outcome(lambda: Schema({"nodes": {k: dict(v) for k, v in nodes.items()}, "marks": {k: dict(v) for k, v in marks.items()}}))
+    if st != "ok":
+        return ("rejected", spec, str(sc))
+    return SchemaInfo(sc, "marks-random")
 
 
 def rand_mark(rng, schema):
@@ -79,6 +86,10 @@ def run(ctx):
         if ctx.time_left(60, 600) < 0:
             break
         info = random_mark_schema(rng)
+        if isinstance(info, tuple):
+            # every name in an `excludes` / `marks` expression of the generated configuration is a declared mark or group
+            ctx.violation("schema-rejected", f"Schema() rejected a well-formed mark configuration: {info[2]}", {"spec": info[1]})
+            continue
         schema = info.schema
         ctx.driver.add_schema(info)
         sid = info.lean_id
@@ -168,7 +179,18 @@ def run(ctx):
                 # permission filtering for every node type
                 for nt in schema.nodes.values():
                     stf, filt = outcome(lambda: nt.allowed_marks(list(base_ref)))
-                    want = [o for o in base_ref if nt.mark_set is None or o.type in nt.mark_set]
+                    # allowed types re-derived from the node's declared `marks` expression (names and group names; "_" = all;
+                    # absent = all for nodes with inline content, none otherwise), not from the library's mark_set
+                    decl = nt.spec.get("marks")
+                    if decl is None:
+                        ok_names = set(schema.marks) if nt.inline_content else set()
+                    elif decl == "_":
+                        ok_names = set(schema.marks)
+                    else:
+                        words = [w for w in decl.split(" ") if w]
+                        ok_names = {k for k, t in schema.marks.items()
+                                    if k in words or any(g in words for g in (t.spec.get("group") or "").split(" ") if g)}
+                    want = [o for o in base_ref if o.type.name in ok_names]
                     allows = nt.allows_marks(list(base_ref))
                     if stf != "ok" or [id(x) for x in filt] != [id(x) for x in want] or bool(allows) != (len(want) == len(base_ref)):
                         r2 = dict(replay)
